@@ -29,6 +29,17 @@ COMPONENTS = {
                  'duplicated tasks); a real multi-process run is not part of '
                  'the verdict'],
     },
+    'tolsim': {
+        'real': ['optiland Tolerancing, Perturbation, the three sampler '
+                 'kinds, SensitivityAnalysis, MonteCarlo, '
+                 'CompensatorOptimizer, variables, operands', 'numpy global '
+                 'RNG (seeded by the samplers themselves)', 'scipy drivers '
+                 'when the program uses the real configuration'],
+        'stub': ['compensation driver in the stub configuration '
+                 '(StubDriver)', 'operand fault wrapper registered through '
+                 'operand_registry (NaN region as a pure function of the '
+                 'lens state)'],
+    },
 }
 
 ASSUMPTIONS = {
@@ -82,6 +93,25 @@ ASSUMPTIONS = {
         'the merit function\'s own round-off floor',
         'optimiser exceptions are not flagged (the statement is conditioned '
         'on "when any optimiser returns")',
+    ],
+    'C15': [
+        'reference for a row: optiland\'s own Tolerancing on a lens rebuilt '
+        'from the recorded build operations, reset(), recorded perturbation '
+        'values written through fresh unscaled handles, '
+        'apply_compensators(), evaluate()',
+        'rows are compared bit-exactly when no thickness quantity is '
+        'perturbed or compensated (all other quantities are written '
+        'absolutely); with a thickness involved positions carry round-off '
+        'of the edit history and rows are compared to 1e-7 relative; with a '
+        'thickness AND a compensator the compensation is not re-run for '
+        'the reference (its discrete decisions may flip on an ulp): the '
+        'compensator values recorded in the row are applied instead',
+        'a run() that raises is out of scope ("when the run completes")',
+        'restore: prescription equal to the nominal snapshot to 1e-12 '
+        'relative (scale / inverse-scale round trip of compensators) plus '
+        'position round-off',
+        'no two perturbations address the same quantity (their result '
+        'columns would collide)',
     ],
     'C07': [
         'only the clause "the library\'s own system-scaling operation '
